@@ -534,6 +534,13 @@ impl<T: AsRef<[u8]> + AsMut<[u8]>> Packet<T> {
         NetworkEndian::write_u32(&mut data[field::POINTER], value)
     }
 
+    /// Clear the "unused" header word of error messages (RFC 4443 requires it to be zero).
+    #[inline]
+    fn clear_unused(&mut self) {
+        let data = self.buffer.as_mut();
+        data[field::UNUSED].fill(0)
+    }
+
     /// Compute and fill in the header checksum.
     pub fn fill_checksum(&mut self, src_addr: &Ipv6Address, dst_addr: &Ipv6Address) {
         self.set_checksum(0);
@@ -762,6 +769,7 @@ impl<'a> Repr<'a> {
             } => {
                 packet.set_msg_type(Message::DstUnreachable);
                 packet.set_msg_code(reason.into());
+                packet.clear_unused();
 
                 emit_contained_packet(packet, header, data);
             }
@@ -781,6 +789,7 @@ impl<'a> Repr<'a> {
             } => {
                 packet.set_msg_type(Message::TimeExceeded);
                 packet.set_msg_code(reason.into());
+                packet.clear_unused();
 
                 emit_contained_packet(packet, header, data);
             }
